@@ -87,6 +87,45 @@ unsafe fn tcp_connect_nb(a: &libc::sockaddr_in) -> (i32, i64) {
     (c, if r < 0 { -(errno() as i64) } else { 0 })
 }
 
+
+/// Runs `call` on a helper thread and watches it from outside for 50 ms: the thread must sit in
+/// system call `nr` in state S (sleeping) all the time; then `wake` makes the call completable.
+/// Returns (slept all the time, what was seen, the call's result).
+fn observe_sleep(call: impl FnOnce() -> i64 + Send + 'static, nr: i64, wake: impl FnOnce()) -> (bool, String, i64) {
+    use std::sync::atomic::{AtomicI32, Ordering};
+    use std::sync::Arc;
+    let tid = Arc::new(AtomicI32::new(0));
+    let t2 = tid.clone();
+    let h = std::thread::spawn(move || {
+        t2.store(unsafe { libc::syscall(libc::SYS_gettid) } as i32, Ordering::SeqCst);
+        call()
+    });
+    while tid.load(Ordering::SeqCst) == 0 {
+        std::thread::yield_now();
+    }
+    let t = tid.load(Ordering::SeqCst);
+    std::thread::sleep(Duration::from_millis(15));
+    let mut all = true;
+    let mut seen = String::new();
+    let t0 = mono_ns();
+    let mut samples = 0;
+    while mono_ns() - t0 < 50_000_000 {
+        let sc = std::fs::read_to_string(format!("/proc/self/task/{t}/syscall")).unwrap_or_default();
+        let st = std::fs::read_to_string(format!("/proc/self/task/{t}/stat")).unwrap_or_default();
+        let state = st.rsplit(") ").next().and_then(|r| r.chars().next()).unwrap_or('?');
+        let in_nr = sc.split_whitespace().next().and_then(|x| x.parse::<i64>().ok());
+        samples += 1;
+        if in_nr != Some(nr) || state != 'S' {
+            all = false;
+        }
+        seen = format!("{samples} samples over 50 ms, last: syscall {:?} state {state}", in_nr);
+        std::thread::sleep(Duration::from_millis(5));
+    }
+    wake();
+    let r = h.join().unwrap_or(-999);
+    (all && samples >= 5, seen, r)
+}
+
 extern "C" fn on_alarm(_: libc::c_int) {}
 
 struct W<'a> {
@@ -299,6 +338,64 @@ fn body(r: &mut Report) {
         libc::close(l);
         let _ = std::fs::remove_dir_all(&dir);
 
+        // ---------------------------------------------------------------- blocking-mode descriptors sleep in the kernel
+        {
+            let mut sv = [0i32; 2];
+            assert_eq!(0, libc::socketpair(libc::AF_UNIX, libc::SOCK_STREAM | libc::SOCK_CLOEXEC, 0, sv.as_mut_ptr()));
+            let (ra, rb) = (sv[0], sv[1]);
+            let (slept, seen, ret) = observe_sleep(move || rd(ra, 8), libc::SYS_read, || {
+                let _ = wr(rb, 1);
+            });
+            w.witness(
+                "blocking-read-sleeps",
+                slept && ret == 1,
+                format!("read on an empty stream WITHOUT O_NONBLOCK: thread in read(), {seen}; after the peer wrote 1 byte it returned {ret}"),
+            );
+            libc::close(ra);
+            libc::close(rb);
+            // accepted with / without SOCK_NONBLOCK: the accepted descriptor's mode follows the accept4 flags, not the listener
+            let (l, a) = tcp_listener(8);
+            let fl = libc::fcntl(l, libc::F_GETFL);
+            libc::fcntl(l, libc::F_SETFL, fl & !libc::O_NONBLOCK);
+            let a2 = a;
+            let (slept, seen, ret) = observe_sleep(
+                move || {
+                    let s = libc::accept4(l, std::ptr::null_mut(), std::ptr::null_mut(), libc::SOCK_CLOEXEC);
+                    if s < 0 {
+                        -(errno() as i64)
+                    } else {
+                        s as i64
+                    }
+                },
+                libc::SYS_accept4,
+                move || {
+                    let (c, _) = tcp_connect_nb(&a2);
+                    let _ = poll1(c, libc::POLLOUT, 1000);
+                    // keep the client open until the end of the process
+                    let _ = c;
+                },
+            );
+            w.witness(
+                "blocking-accept-sleeps",
+                slept && ret >= 0,
+                format!("accept4 on an idle listener WITHOUT O_NONBLOCK: thread in accept4(), {seen}; after a client connected it returned {ret}"),
+            );
+            if ret >= 0 {
+                let s = ret as i32;
+                let mode = libc::fcntl(s, libc::F_GETFL);
+                let (slept, seen, r2) = observe_sleep(move || rd(s, 8), libc::SYS_read, move || {
+                    libc::shutdown(s, libc::SHUT_RD);
+                });
+                w.witness(
+                    "accept4-without-nonblock-gives-blocking-stream",
+                    mode >= 0 && mode & libc::O_NONBLOCK == 0 && slept,
+                    format!("stream accepted with flags SOCK_CLOEXEC only: F_GETFL = {mode:#o} (O_NONBLOCK clear); read with a silent peer: {seen}; after shutdown(SHUT_RD) it returned {r2}"),
+                );
+                libc::close(s);
+            }
+            libc::close(l);
+        }
+
         // ---------------------------------------------------------------- loopback TCP
         let (l, a) = tcp_listener(16);
         let (c, x) = tcp_connect_nb(&a);
@@ -464,7 +561,7 @@ pub fn phase(args: &Args) -> Report {
     r.rule = "each kind of answer the model kernel can give (read: data / fewer than requested / EAGAIN / EOF; write: short count / EAGAIN when full; ppoll: ready, \
               not ready with zero time-out, 0 at/after the time-out, EINTR with the remaining time written back, readiness followed by progress; accept4: EAGAIN / descriptor; \
               unix connect: 0 / ECONNREFUSED / EAGAIN on a full backlog then 0; TCP connect: EINPROGRESS then POLLOUT then SO_ERROR 0 and second connect 0, ECONNREFUSED, \
-              EALREADY while in progress) is driven on the REAL kernel with non-blocking socket pairs and loopback TCP through libc; one evaluation = one kind; plus one real-kernel \
+              EALREADY while in progress; blocking-mode read / accept4 observed asleep in the kernel for 50 ms through /proc/self/task/<tid>/{syscall,stat}) is driven on the REAL kernel with non-blocking socket pairs and loopback TCP through libc; one evaluation = one kind; plus one real-kernel \
               run of TcpStreamInProgress::connect_blocking on a connection that is still in progress"
         .into();
     r.bound("kinds", r.evaluations);
